@@ -57,9 +57,20 @@ FIXED = [
  ("F28", "C12", "fix: unresolved_namespaces reports an attribute namespace that is only bound as default", "clone_with_prefixes of <e xmlns=\"A\" p:at=\"\"/> (p inherited) could not be serialised although the source could"),
  ("F52", "C15", "fix: deduplicate_namespaces keeps the prefix an attribute needs under nested default declarations", "<doc xmlns=\"X\"><a xmlns:p=\"X\"><b xmlns=\"X\" p:attr=\"\"/></a></doc> lost p after deduplication (MissingPrefix); found by a seeding sub-agent on the unchanged tree, then reproduced by the C15 forced layouts"),
  ("F53", "C06", "fix: text consolidation does not touch the added node after it was merged away", "insert_after(t2, t1) on adjacent text nodes t0 t1 t2 (left over from a consolidation-off phase) with consolidation on panicked: Try to access a freed node (regression of the F18 repair, found by C12's side mutations and then by the mixed-consolidation states of the C06 catalogue)"),
+ ("F40", "C19", "fix: serializing text that is not the child of an element no longer panics", "HTML serialisation of a fragment with top-level text or of a detached text node panicked (also to_string of a detached text node)"),
+ ("F41", "C19", "fix: every svg / math element gets its xmlns declaration in HTML5 output", "of two sibling svg elements only the first was written with xmlns= (forced default binding leaked into the parent's frame)"),
+ ("F54", "C19", "fix: a forced default namespace in HTML5 output replaces the previous one", "an svg element nested in math content nested in svg content was written without xmlns= (stale default-namespace entry)"),
  ("F31a", "C06", "fix: create_missing_prefixes returns an error for a document without an element", "create_missing_prefixes panicked on a document without element"),
 ]
 OPEN = [
+ {"property": "C19", "ledger": "F39",
+  "signature": "C19/html-element-written-with-prefix/Xhtml",
+  "what": "an element in the real XHTML namespace http://www.w3.org/1999/xhtml bound to a prefix is written with that prefix (the crate's XHTML_NS constant is https://www.w3.org/1999/xhtml; existing tests pin that value)",
+  "witness": "<h:html xmlns:h=\"http://www.w3.org/1999/xhtml\"><h:body/></h:html> -> <!DOCTYPE html><h:html xmlns:h=...>"},
+ {"property": "C19", "ledger": "F39",
+  "signature": "C19/void-element-with-end-tag/Xhtml",
+  "what": "a void element (br, img, ...) in the real XHTML namespace http://www.w3.org/1999/xhtml is written with an end tag (same cause: XHTML_NS constant is the https URI)",
+  "witness": "<html xmlns=\"http://www.w3.org/1999/xhtml\"><br/></html> -> ...<br></br>"},
  {"property": "C10", "ledger": "F29",
   "signature": "C10/serialise/emitted-names-differ/unns-element-under-default-binding-written-unprefixed",
   "what": "a no-namespace element with a default-namespace binding in scope is serialised unprefixed without xmlns=\"\", so the emitted name means the default namespace (also after create_missing_prefixes, which cannot repair it)",
